@@ -235,6 +235,12 @@ def basic_glue(c, e1names=None, with_ep=True, with_mt=True):
         pre = ('let a: Vec<Value> = vsupport::args_of(&c.input); let addr = Addr::unchecked(c.ctx["addr"].as_str().unwrap_or("target")); '
                'let borrowed = c.extra["borrowed"].as_bool().unwrap_or(false); let fseq = vsupport::funds_seq(&c.ctx); '
                'match (c.part.as_str(), c.extra["via"].as_str().unwrap_or(""), c.extra["fn"].as_str().unwrap_or(""))')
+        ib = e1names.get(("contract", "inst_builder"))
+        if ib and not c.generics:
+            tr, fn = ib[0][0].split("::")
+            args = "".join(", vsupport::arg(&a[%d])" % j for j in range(ib[0][1]))
+            arms.append('"inst_builder" => { let a: Vec<Value> = vsupport::args_of(&c.input); let code_id = c.extra["code_id"].as_u64().unwrap_or(1); '
+                        'vsupport::obs_inst_builder(<vsupport::sylvia::builder::instantiate::InstantiateBuilder as sv::%s>::%s(code_id%s), &c.extra) },' % (tr, fn, args))
         arms.append('"remote_exec" => { %s {\n            %s\n            _ => json!({"machinery": "bad remote_exec"}),\n        } },' % (pre, "\n            ".join(rex)))
         arms.append('"remote_query" => { %s {\n            %s\n            _ => json!({"machinery": "bad remote_query"}),\n        } },' % (pre, "\n            ".join(rq)))
     return arms
@@ -252,6 +258,8 @@ def e1_names(obs):
     for it in items:
         if it.get("k") == "trait" and it.get("name") in ("Executor", "Querier"):
             out[it["name"].lower()] = [(f["name"], len(f["params"]) - 1) for f in it["items"] if f.get("k") == "fn"]
+        if it.get("k") == "trait" and str(it.get("name", "")).endswith("InstantiateBuilder"):
+            out["inst_builder"] = [(it["name"] + "::" + f["name"], len(f["params"]) - 1) for f in it["items"] if f.get("k") == "fn"]
     for it in items:
         if it.get("k") == "impl" and it.get("trait") is None:
             st = model.norm(it["self_ty"]).split("<")[0]
